@@ -16,6 +16,7 @@ import (
 	"strconv"
 	"strings"
 	"sync"
+	"sync/atomic"
 	"time"
 
 	"github.com/pascaldekloe/mqtt"
@@ -23,10 +24,18 @@ import (
 
 func init() {
 	// the same runs, judged by the property's own rule (SyncCheck.v)
-	runners["SYNC"] = func(tier string, seed uint64, out string) error { return runSync("SYNC", "sync_run", false, tier, seed, out) }
-	runners["SYNC08"] = func(tier string, seed uint64, out string) error { return runSync("SYNC08", "sync_run_c08", false, tier, seed, out) }
-	runners["SYNC10"] = func(tier string, seed uint64, out string) error { return runSync("SYNC10", "sync_run_c10", false, tier, seed, out) }
-	runners["SYNCF7"] = func(tier string, seed uint64, out string) error { return runSync("SYNCF7", "sync_run_c11", true, tier, seed, out) }
+	runners["SYNC"] = func(tier string, seed uint64, out string) error {
+		return runSync("SYNC", "sync_run", false, tier, seed, out)
+	}
+	runners["SYNC08"] = func(tier string, seed uint64, out string) error {
+		return runSync("SYNC08", "sync_run_c08", false, tier, seed, out)
+	}
+	runners["SYNC10"] = func(tier string, seed uint64, out string) error {
+		return runSync("SYNC10", "sync_run_c10", false, tier, seed, out)
+	}
+	runners["SYNCF7"] = func(tier string, seed uint64, out string) error {
+		return runSync("SYNCF7", "sync_run_c11", true, tier, seed, out)
+	}
 }
 
 func gid() int {
@@ -895,6 +904,9 @@ func runSync(name, runFn string, withF7 bool, tier string, seed uint64, out stri
 		term, desc = runPingAfterClose(stats)
 		desc["index"] = -8
 		cs.add(term, desc, "sync-run", true)
+		term, desc = runSlowSaveDuringConnect(stats)
+		desc["index"] = -9
+		cs.add(term, desc, "sync-run", true)
 	}
 	if withF7 {
 		var term string
@@ -1379,4 +1391,129 @@ func runPingAfterClose(stats map[string]int) (string, map[string]any) {
 		s.note(ga, 5, errHung, true)
 	}
 	return renderSched(rec, s, "two Pings after Close: the second finds the slot taken")
+}
+
+// runSlowSaveDuringConnect (C10): a persisted publish sits in Persistence.Save (it holds its
+// sequence semaphore) while the read routine redials after a connection loss. The connect has to
+// wait for the sequence semaphore without holding anything the publish needs: when the Save
+// returns, the publish is enqueued (ErrDown on its exchange), connect resends it and the client is
+// Online again.
+func runSlowSaveDuringConnect(stats map[string]int) (string, map[string]any) {
+	rec := &syncRec{}
+	mqtt.VerifEvent = rec.hook
+	defer func() { mqtt.VerifEvent = defaultHook }()
+	log := &evlog{}
+	store := newSimStore(log)
+	eofGate, saveGate, saveEntered := make(chan struct{}), make(chan struct{}), make(chan struct{})
+	var gateOn atomic.Bool
+	var onceE sync.Once
+	store.before = func(kind string, key uint) {
+		if kind == "save" && gateOn.Load() {
+			onceE.Do(func() { close(saveEntered) })
+			<-saveGate
+		}
+	}
+	dialer := &simDialer{log: log}
+	dialer.onDial = func(id int) (*simConn, bool) {
+		c := &simConn{closedCh: make(chan struct{})}
+		sent := false
+		acks := make(chan []byte, 8)
+		c.onRead = func(c *simConn, armed bool, want int) readAns {
+			if !sent {
+				sent = true
+				return readAns{kind: rData, data: []byte{0x20, 2, 0, 0}}
+			}
+			c.mu.Unlock()
+			defer c.mu.Lock()
+			if id == 0 {
+				select {
+				case <-eofGate:
+					return readAns{kind: rEOF}
+				case <-c.closedCh:
+					return readAns{kind: rClosed}
+				}
+			}
+			select {
+			case a := <-acks:
+				return readAns{kind: rData, data: a}
+			case <-c.closedCh:
+				return readAns{kind: rClosed}
+			}
+		}
+		c.onWrite = func(c *simConn, p []byte) writeAns {
+			if p[0]>>4 == 3 && p[0]&6 == 2 && len(p) >= 4 { // QoS 1 PUBLISH in one buffer: topic "t"
+				tl := int(p[2])<<8 | int(p[3])
+				if len(p) >= 6+tl {
+					select {
+					case acks <- []byte{0x40, 2, p[4+tl], p[5+tl]}:
+					default:
+					}
+				}
+			}
+			return writeAns{kind: wOk, n: len(p)}
+		}
+		return c, true
+	}
+	cfg := mqtt.Config{Dialer: dialer.dial, AtLeastOnceMax: 4, PauseTimeout: time.Minute}
+	client, err := mqtt.InitSession("ssc", store, &cfg)
+	if err != nil {
+		panic(err)
+	}
+	s := &schedCalls{}
+	const limit = 5 * time.Second
+	rres := make(chan error, 4)
+	next := make(chan struct{}, 4)
+	rg := make(chan int, 1)
+	go func() {
+		rg <- gid()
+		for range next {
+			rres <- safelyNow(func() error { _, _, err := client.ReadSlices(); return err })
+		}
+	}()
+	g := <-rg
+	waitR := func() bool {
+		select {
+		case err := <-rres:
+			s.note(g, 0, err, false)
+			return true
+		case <-time.After(limit):
+			s.note(g, 0, errHung, false)
+			stats["ssc:hung"]++
+			return false
+		}
+	}
+	next <- struct{}{}
+	if waitCh(client.Online(), limit) {
+		close(eofGate)
+		if waitR() { // the connection loss
+			gateOn.Store(true)
+			waitP := s.start(2, func() error { _, err := client.PublishAtLeastOnce([]byte("x"), "t"); return err })
+			if waitCh(saveEntered, limit) {
+				next <- struct{}{}                 // redial while the Save is still running
+				time.Sleep(150 * time.Millisecond) // let connect reach its semaphores
+				close(saveGate)
+				if !waitP(limit) {
+					stats["ssc:hung"]++
+				}
+				if !waitCh(client.Online(), limit) {
+					s.note(g, 0, errHung, false) // never Online again
+					stats["ssc:hung"]++
+				}
+			} else {
+				close(saveGate)
+				waitP(limit)
+			}
+		}
+	}
+	gateOn.Store(false)
+	select {
+	case <-saveGate:
+	default:
+		close(saveGate)
+	}
+	done := make(chan struct{})
+	go func() { client.Close(); close(done) }()
+	waitCh(done, limit)
+	close(next)
+	return renderSched(rec, s, "a persisted publish is inside Persistence.Save while the read routine redials")
 }
